@@ -183,12 +183,20 @@ def mrBad : MostRecent → List Step
 def sPreA (cfg : Cfg) (i : In) : List Stage :=
   [ { ok := !(i.sw.to != "" && !i.active.contains i.sw.to), good := [], bad := [.fail "replica is not active"] },
     { ok := (dubiousHAHosts i.cs).isEmpty, good := [], bad := [.fail "dubious hosts"] },
+    -- every listed host and the recorded master are registered hosts; checked before anything is touched
+    -- (fix fc0b66f; nil dereferences before)
+    { ok := !(workList i ++ [i.oldMaster]).any (fun h => (pingOk i.cs h).isNone), good := [],
+      bad := [.fail "host is not among cluster hosts"] },
     { ok := i.optStopOk, good := [.stopOptimization true], bad := [.stopOptimization false] },
     { ok := !(i.turbo && !i.turboOk), good := if i.turbo then [.turboPhase true] else [], bad := [.turboPhase false] },
-    { ok := !(workList i).any (fun h => (pingOk i.cs h).isNone),
-      good := (workList i).map fun h => Step.freezeRO h (roOk i h), bad := [.panic "clusterState[host]"] },
+    -- the second shut-off of the optimisation, after a successful speed-up phase (fix 97bff8a)
+    { ok := !(i.turbo && !i.optStop2Ok), good := if i.turbo then [.stopOptimization true] else [],
+      bad := [.stopOptimization false] },
+    -- phase 1
+    { ok := true, good := (workList i).map fun h => Step.freezeRO h (roOk i h) },
     { ok := !((workList i).contains i.oldMaster && !roOk i i.oldMaster && !i.sw.failoverType), good := [],
       bad := rejectBad i.rejectOk },
+    -- (the guard of this stage always holds when it is reached: `oldMaster_stage_unreachable` in RobustLemmas)
     { ok := (pingOk i.cs i.oldMaster).isSome,
       good := ((workList i).filter (· != i.oldMaster)).map (fun h => Step.stopIO h ((pingOk i.cs h == some true) && i.io h))
         ++ [.quorumCheck (frozen i).length (qOk cfg i)],
@@ -221,14 +229,16 @@ theorem performSwitchover_eq (cfg : Cfg) (i : In) : performSwitchover cfg i = ru
   case true => simp
   cases a2 : (dubiousHAHosts i.cs).isEmpty
   · simp
+  cases a5 : (workList i ++ [i.oldMaster]).any fun h => (pingOk i.cs h).isNone
+  case true => simp
   cases a3 : i.optStopOk
   · simp
-  cases a4 : i.turbo <;> cases a4' : i.turboOk
-  case true.false => simp
+  cases a4 : i.turbo <;> cases a4' : i.turboOk <;> cases a4'' : i.optStop2Ok
+  case true.false.false => simp
+  case true.false.true => simp
+  case true.true.false => simp
   all_goals
     simp only [Bool.true_and, Bool.false_and, Bool.not_true, Bool.not_false]
-    cases a5 : (workList i).any fun h => (pingOk i.cs h).isNone
-    case true => simp
     cases a6 : ((workList i).contains i.oldMaster && !(pingOk i.cs i.oldMaster == some true && i.ro i.oldMaster) &&
                       !i.sw.failoverType)
     case true => cases i.rejectOk <;> simp [rejectBad]
